@@ -158,6 +158,20 @@ pub fn run(rep: &mut Report, thorough: bool) {
             };
             o.user_mappings.push(UserMap { start, size, offset: 0, name: format!("/user/provided/lib {u}.so"), id: if rng.chance(1, 3) { Vec::new() } else { rng.bytes(20) } });
         }
+        // sometimes: two caller mappings start inside the same module, a partial one first and
+        // a wholly containing one later (or the other way round)
+        if !files.is_empty() && rng.chance(1, 3) {
+            let f = rng.pick(&files).clone();
+            let part = UserMap { start: f.base, size: PAGE, offset: 0, name: "/user/provided/part.so".into(), id: rng.bytes(20) };
+            let whole = UserMap { start: f.base, size: f.size, offset: 0, name: "/user/provided/whole.so".into(), id: rng.bytes(20) };
+            if rng.chance(1, 2) {
+                o.user_mappings.push(part);
+                o.user_mappings.push(whole);
+            } else {
+                o.user_mappings.push(whole);
+                o.user_mappings.push(part);
+            }
+        }
         t.settle();
         let (out, _) = {
             let _g = dump::DUMP_LOCK.lock().unwrap_or_else(|e| e.into_inner());
